@@ -60,7 +60,7 @@ def random_cases(n, rng):
                 fs = fs[:2] + rng.sample(cand, rng.randint(1, 3))
                 fs = sorted(set(f for f in fs if f != src and not f.startswith(".")))
         prefix = "./" if rng.random() < 0.25 else ""
-        rows.append({"id": "r%d" % k, "mode": mode, "req": req, "src": src, "mfn": mfn, "fs": fs, "prefix": prefix})
+        rows.append({"id": "r%d" % k, "mode": mode, "req": req, "src": src, "mfn": mfn, "fs": fs, "prefix": prefix, "rc": bool(req.startswith("@pkg") and k % 2 == 0)})
     return rows
 
 
@@ -115,6 +115,8 @@ def run(tier):
         raise vlib.ToolError("MC_Resolve enumerated only %d cases" % len(cases))
     for k, c in enumerate(cases):
         c["id"] = "c%d" % k
+        # every other request through the alias takes `@pkg` from proj/.luaurc instead of the configuration (see resolve.rs)
+        c["rc"] = bool(c["req"].startswith("@pkg") and k % 2 == 0)
     cpath = os.path.join(wd, "cases.ndjson")
     write_ndjson(cpath, cases)
     # R
